@@ -184,7 +184,7 @@ def build_harness(container, san=True):
             except OSError:
                 return 0
         olds = sorted(bindir.glob(f"h_{container}__*"), key=_mt)
-        for old in olds[:-5]:
+        for old in olds[:-40]:
             try:
                 old.unlink()
             except OSError:
